@@ -313,6 +313,7 @@ fn leaf_ty(rng: &mut Rng, l: &Leaf, text: bool) -> Ty {
         Leaf::Bool(_) => if rng.chance(1, 4) { Ty::Any } else { Ty::Bool },
         Leaf::Fixed(_) => match rng.below(3) { 0 => Ty::Any, 1 if text => Ty::Str, _ => Ty::F64 },
         Leaf::Date(..) => if text { Ty::Str } else { Ty::Any },
+        Leaf::Unq(b) if b.iter().all(|c| c.is_ascii_digit() || *c == b'.' || *c == b'-') && b.contains(&b'.') => match rng.below(3) { 0 => Ty::Str, 1 => Ty::Any, _ => Ty::F64 },
         Leaf::Unq(_) | Leaf::Quo(_) => if rng.chance(1, 5) { Ty::Any } else { Ty::Str },
     }
 }
